@@ -224,6 +224,8 @@ def run(ctx):
     ctx.cov["input_distribution"] = hist
     ctx.cov["trusted_base"] = TRUSTED_COMMON + ["globset matching is not modelled: the theorems quantify over an arbitrary match function of the normalised path"]
     ctx.assumptions = ["the command is run from the project root (patterns are documented as relative to it)"]
+    if ctx.cov.get("norm_not_idempotent"):
+        fails.append(("normalize_for_matching is not idempotent: a key written by one run is not found by the next", "", ctx.cov["norm_not_idempotent"]))
     for (what, cfg, detail) in fails[:5]:
         ctx.violation({"kind": "property-oracle", "what": what, "config": cfg, "detail": detail})
     if not fails:
@@ -246,7 +248,8 @@ def norm_correspondence(ctx, impl):
         k = rng.randint(0, 4)
         body = "/".join(rng.choice(comps) for _ in range(k))
         pre = rng.choice(["", "./", ".\\", "././", cwd + "/", cwd, cwd + "\\", "/other/", cwd[:-1], cwd + "2/", ".", "./.", ".//",
-                          cwd + "//", cwd + "/./", "/", "//", "\\", cwd.replace("/", "//") + "/"])
+                          cwd + "//", cwd + "/./", "/", "//", "\\", cwd.replace("/", "//") + "/",
+                          cwd.replace("/", "\\") + "\\", cwd.replace("/", "\\"), cwd.replace("/", "\\", 2) + "/"])
         suf = rng.choice(["", "", "", "/", "//", "/.", "\\", "/./", "\\."])
         cases.append(pre + body + suf)
     cases += [".", "./", "", "./.", cwd, cwd + "/", cwd + "/src/a.rs", "./src/a.rs", "src/a.rs", ".\\src\\a.rs",
@@ -260,6 +263,13 @@ def norm_correspondence(ctx, impl):
         if a != b:
             mism += 1
             ctx.cov.setdefault("norm_first_mismatch", {"path": c, "impl": a, "model": b})
+    # what the normaliser returns is a fixed point (C08_norm_idempotent): a key is found again when looked up
+    dec = lambda t: "" if t in ("", "-") else "".join(chr(int(x)) for x in t.split(","))
+    io2, _, _ = run_lines(impl, ["norm\t%s\t%s" % (enc(cwd), a if a else "-") for a in io])
+    nonidem = [(c, dec(a), dec(b)) for c, a, b in zip(cases, io, io2) if a != b]
+    ctx.cov["norm_idempotence_failures"] = len(nonidem)
+    if nonidem:
+        ctx.cov["norm_not_idempotent"] = {"path": nonidem[0][0], "once": nonidem[0][1], "twice": nonidem[0][2]}
     shutil.rmtree(tmp, ignore_errors=True)
     if len(io) != len(cases) or len(mo) != len(cases):
         raise CheckBroken("paths drivers died: %d %d %d" % (len(cases), len(io), len(mo)))
